@@ -44,6 +44,16 @@ def genContent (seed len : Nat) : ByteArray := Id.run do
 def parseContent (s : String) : ByteArray :=
   match s.splitOn ":" with
   | ["g", seed, len] => genContent seed.toNat! len.toNat!
+  | ["z", seed, len] =>
+    -- the first (seed % 4)/4 of the file as in "g", the rest zeros
+    let s := seed.toNat!
+    let n := len.toNat!
+    let k := (s % 4) * n / 4
+    Id.run do
+      let mut out := genContent s k
+      for _ in [0:n - k] do
+        out := out.push 0
+      return out
   | ["h", hx] => ba (unhex hx)
   | _ => ByteArray.empty
 
@@ -91,7 +101,9 @@ def splitSpace (b : Bytes) : List Bytes := (splitOnByte 0x20 b).filter (fun x =>
 /-- `vcmd <id> <out>… -- <in>…` -/
 def execCmd : Exec ByteArray := fun stg w =>
   match splitSpace stg.cmd with
-  | _ :: id :: rest =>
+  | prog :: id :: rest =>
+    -- `vprobe …` looks but does not touch
+    if prog == str "vprobe" then .ok w else
     let outs := rest.takeWhile (· != str "--")
     let ins := (rest.dropWhile (· != str "--")).drop 1
     let inContents := ins.map fun p => (getPath w.ws (Path.comps p)).bind (readNode w)
